@@ -145,3 +145,42 @@ Proof.
   exists [(s2b "a.v1.count", st_file 3)], st_params, [st_file 10].
   split; [repeat constructor; intros []|]. vm_compute. discriminate.
 Qed.
+
+(* ---------------------------------------------------------------- every Run fetches the configuration *)
+
+Lemma latest_config_snoc st v u : latest_config (st ++ [(v, u)]) = Some (v, u).
+Proof. unfold latest_config. rewrite rev_app_distr. reflexivity. Qed.
+
+Definition with_config (p : run_params) (v : bytes) (u : upload_cfg) : run_params :=
+  mkRun (rp_gate p) u v (rp_week p) (rp_lastweek p) (rp_x p) (rp_start p).
+
+(* a Run against a store whose newest version is (v, u) is the specified run under u, labelled v *)
+Theorem run_fetching_spec st v u p d :
+  NoDup (map d_name d) -> run_fetching (st ++ [(v, u)]) p d = run_spec (with_config p v u) d.
+Proof.
+  intro H. unfold run_fetching. rewrite latest_config_snoc. apply run_uploader_spec. exact H.
+Qed.
+
+(* its upload report carries that version and is filtered by THAT configuration,
+   whatever configuration earlier Runs of the process were given *)
+Theorem run_fetching_filters_by_latest st v u p d local up deleted :
+  NoDup (map d_name d) ->
+  run_fetching (st ++ [(v, u)]) p d = (Some (local, Some up), deleted) ->
+  r_config up = v /\
+  r_programs up = filter_upload (new_config u) (rp_x p) (aggregate (map d_file (expired_now (rp_start p) d))).
+Proof.
+  intros Hnd H. rewrite (run_fetching_spec st v u p d Hnd) in H. unfold run_spec in H.
+  cbn [with_config rp_gate rp_cfg rp_cfgver rp_week rp_lastweek rp_x rp_start] in H.
+  destruct (expired_now (rp_start p) d) as [|e es] eqn:E; [discriminate|].
+  destruct (create_report (rp_gate p) u v (rp_week p) (rp_lastweek p) (rp_x p) (map d_file (e :: es)))
+    as [[l o]|] eqn:Ec; [|discriminate].
+  injection H as -> -> _. apply create_report_shape in Ec as [_ [-> _]]. split; reflexivity.
+Qed.
+
+Theorem run_fetching_history_pointwise h before s after :
+  h = before ++ s :: after ->
+  nth (List.length before) (run_fetching_history h) (None, []) = run_fetching (fst (fst s)) (snd (fst s)) (snd s).
+Proof.
+  intros ->. unfold run_fetching_history. rewrite map_app, app_nth2 by (rewrite map_length; apply le_n).
+  rewrite map_length, PeanoNat.Nat.sub_diag. reflexivity.
+Qed.
